@@ -14,7 +14,7 @@ pub fn prop() -> Prop {
         rule: "observer bodies H (15: the bound name next to ., ^., ^^., ^^^., another variable, another macro, a selected name) x enclosing contexts X (12: top level, map, filter, fold, sort_by, map_values, pipe stage, pipe-then-map, flat_map, pipes with a stage that returns its input unchanged) x binding forms F (27: a macro whose body binds its own name again; a macro whose body is a pipe and is used as a stage of another pipe; set, define, a macro whose body names another macro or variable that is bound later, earlier or re-bound at the place of use, --set variable, --set macro, nested both ways, shadowing an inner/outer/--set binding, unused names, a macro whose body reads a variable bound outside/inside, a macro reading ^) x placement (binding outside X / inside the functional argument) x bound values (4) x position 1..4 among --select options x with/without --split-by x 2 inputs; plus the same expression repeated in four --select positions; plus 3..130 variables and macros in scope at once (nested set/define, or --set given that many times); 10..1100 expansions of one macro in one record, most yielding nothing; shadowing where the inner and the outer value are numerically close (2^64-1 / 2^64, -2^63 / -2^63-1, 2^53+1 / 2^53, 0 / -0.0); bindings made anew for every record and every element: around the documented example call of every function, each literal argument in turn is read from a variable (sigil and function spelling) and, in first position, from a macro bound to a member that changes A B A A / B A B B, against reading the member directly and against the record alone; nine nestings of a constant binding and one that changes from element to element (set/define/--set macro/--set variable/pipe), per element and per record; non-trivial = the body reads something the binding had to carry over (^, another binding, a selected name) or sits after --split-by / other selections; distinct by construction",
         explanation: "each case is one run with two selections: the bound form and the form obtained by substituting the bound value / macro body by hand; both must have the same value (differential, no model needed) and both are also compared with the reference evaluator",
         assumptions: COMMON_ASSUMPTIONS.to_vec(),
-        guards: vec!["function-argument-bound-anew-for-every-record", "constant-binding-inside-a-changing-one", "bound-name-followed-by-a-comma", "preset-variable-is-evaluated-before-any-record", "binding-names-beyond-ascii-letters", "many-macro-expansions-in-one-record", "shadowing-with-numerically-close-values", "many-bindings-in-scope", "parent-read-under-a-binding", "other-variable-survives", "other-macro-survives", "selected-name-survives", "after-split", "shadowing", "macro-body-reads-outer-variable", "pipe-stage-parent", "later-select-sees-same-parents"],
+        guards: vec!["one-macro-body-expanded-under-several-bindings-in-one-expression", "function-argument-bound-anew-for-every-record", "constant-binding-inside-a-changing-one", "bound-name-followed-by-a-comma", "preset-variable-is-evaluated-before-any-record", "binding-names-beyond-ascii-letters", "many-macro-expansions-in-one-record", "shadowing-with-numerically-close-values", "many-bindings-in-scope", "parent-read-under-a-binding", "other-variable-survives", "other-macro-survives", "selected-name-survives", "after-split", "shadowing", "macro-body-reads-outer-variable", "pipe-stage-parent", "later-select-sees-same-parents"],
         budget_s: (100, 1800),
         single_worker: false,
         run,
@@ -670,6 +670,32 @@ pub fn rebinding_around_every_function(ctx: &mut Ctx) {
             let ok = o.res.is_ok() && rows.len() == 6 && rows.iter().all(|r| r.get("subst").is_some() && r.get("bound") == r.get("subst"));
             if !ok && !b.starts_with("(set \"one\" 1 (map .rows") && !b.contains("(| . ") && !b.contains("^.k") {
                 ctx.violation("bound-form-differs-from-hand-substituted-form", "a constant binding nested in one that changes from record to record", &[case.clone()], "bound = subst in each of the 6 rows".into(), crate::drive::trunc(&o.out_str(), 400));
+            }
+        }
+    }
+    // one macro body that names another macro (or a variable), expanded several times in ONE expression under different
+    // bindings of that name: each expansion sees the binding at its own place of use
+    if ctx.mine() {
+        let cases: [(&str, Vec<&str>, &str); 8] = [
+            ("(define \"m\" (+ @f 1) (+ (define \"f\" 10 @m) (define \"f\" 20 @m)))", vec![], "32"),
+            ("(define \"m\" (+ @f 1) (push [] (define \"f\" 10 @m) (define \"f\" 20 @m) (define \"f\" 10 @m)))", vec![], "[11, 21, 11]"),
+            ("(+ @g (define \"f\" 2 @g))", vec!["--set=@g=@f", "--set=@f=1"], "3"),
+            ("(push [] @g (define \"f\" 2 @g) @g)", vec!["--set=@g=(+ @f 0)", "--set=@f=1"], "[1, 2, 1]"),
+            ("(define \"m\" (+ :v 1) (push [] (set \"v\" 10 @m) (set \"v\" 20 @m)))", vec![], "[11, 21]"),
+            ("(map (push [] 10 20 10) (define \"f\" . @g))", vec!["--set=@g=(+ @f 1)"], "[11, 21, 11]"),
+            ("(define \"m\" (@ \"f\") (push [] (define \"f\" 1 @m) (define \"f\" 2 @m)))", vec![], "[1, 2]"),
+            ("(define \"m\" (push [] @f @f) (push [] (define \"f\" 1 @m) (define \"f\" 2 @m)))", vec![], "[[1, 1], [2, 2]]"),
+        ];
+        for (e, extra, want) in cases {
+            let mut args: Vec<String> = extra.iter().map(|s| s.to_string()).collect();
+            args.push(format!("--select={e}=r"));
+            let (case, o) = run1(ctx, args, "null\n".to_string());
+            ctx.trace_validated();
+            ctx.nontrivial();
+            ctx.guard("one-macro-body-expanded-under-several-bindings-in-one-expression");
+            let got = json::parse_rows(&o.stdout, b"\n").ok().and_then(|r| r.first().and_then(|x| x.get("r").cloned()));
+            if !o.res.is_ok() || got != Some(json::parse_str(want)) {
+                ctx.violation("bound-form-differs-from-hand-substituted-form", "one macro body expanded under several bindings of a name it mentions, in one expression", &[case.clone()], want.to_string(), crate::drive::trunc(&o.out_str(), 300));
             }
         }
     }
